@@ -1182,6 +1182,144 @@ def run_multitask(ctx, drv, cfg, rng, replay_only=None):
     _state["worst"] = max(_state.get("worst", 0.0), cmp_.worst)
 
 
+def run_multitask_batched(ctx, drv, cfg, rng, replay_only=None):
+    """LMC / independent multitask over a *batch of models*: variational batch shape (Q latents x B models) with the
+    latent (task) dimension at position `latent_dim` in {-1, -2}; Q != B and Q == B.  q(f) and the KL of every model
+    against the closed form (KL of model b = sum over ITS latents)."""
+    import torch
+    import gpytorch
+    V = gpytorch.variational
+    torch.manual_seed(rng.torch_seed())
+    kind, ld = cfg["kind"], cfg["latent_dim"]
+    Qn, Bm, Tn, M, n, d = cfg["Q"], cfg["B"], cfg["T"], cfg["M"], cfg["n"], cfg["d"]
+    bs = [Qn, Bm] if ld == -2 else [Bm, Qn]
+    zb = bs if cfg.get("z_batched", True) else []
+    kb = bs if cfg.get("k_batched", False) else []
+    Z = spread_points([*zb, M, d], rng)
+    x = spread_points([n, d], rng, lo=-2.5, hi=2.5, min_dist=0.2)
+    base_cls = getattr(V, cfg["base"])
+    bdist = getattr(V, cfg["dist"])(M, batch_shape=torch.Size(bs))
+
+    class GP(gpytorch.models.ApproximateGP):
+        def __init__(self):
+            base = base_cls(self, Z, bdist, learn_inducing_locations=True)
+            if kind == "lmc":
+                vs_ = V.LMCVariationalStrategy(base, num_tasks=Tn, num_latents=Qn, latent_dim=ld)
+            else:
+                vs_ = V.IndependentMultitaskVariationalStrategy(base, num_tasks=Tn, task_dim=ld)
+            super().__init__(vs_)
+            self.mean_module = gpytorch.means.ConstantMean(batch_shape=torch.Size(kb))
+            self.covar_module = gpytorch.kernels.ScaleKernel(gpytorch.kernels.RBFKernel(batch_shape=torch.Size(kb)),
+                                                             batch_shape=torch.Size(kb))
+
+        def forward(self, x):
+            return gpytorch.distributions.MultivariateNormal(self.mean_module(x), self.covar_module(x))
+
+    model = GP().double()
+    vs = model.variational_strategy
+    base = vs.base_variational_strategy
+    randomize_hypers(model, rng)
+    base.variational_params_initialized.fill_(1)
+    randomize_dist(bdist, rng)
+    if kind == "lmc":
+        with torch.no_grad():
+            vs.lmc_coefficients.normal_()
+    tau = [rng.randrange(Tn) for _ in range(n)]
+    whitened = cfg["base"] == "VariationalStrategy"
+    desc = f"{type(vs).__name__}[{kind}] latent_dim={ld} Q={Qn} B={Bm} T={Tn} (base={cfg['base']}/{cfg['dist']}) M={M} n={n} " \
+           f"d={d} z_batched={cfg.get('z_batched', True)} k_batched={cfg.get('k_batched', False)}"
+    key = f"{type(vs).__name__}:{kind}/latent_dim={ld}"
+    replay = {"cfg": cfg, "idx": None, "runner": "multitask_batched"}
+    res = {}
+    for mode in ("eval", "train"):
+        model.train(mode == "train")
+        with torch.no_grad():
+            out = model(x)
+            try:
+                outi = model(x, task_indices=torch.tensor(tau))
+                mi, ci = outi.mean.detach().clone(), outi.covariance_matrix.detach().clone()
+            except RuntimeError:
+                if kind == "lmc":
+                    raise
+                mi = ci = None     # independent wrapper: task_indices with task_dim=-2 is rejected by the real code
+                ctx.count("rejected_by_real_code:indep+task_dim=-2+task_indices")
+            res[mode] = (out.mean.detach().clone(), out.covariance_matrix.detach().clone(), out.variance.detach().clone(),
+                         vs.kl_divergence().detach().clone(), mi, ci)
+    eps_b = F(base.jitter_val)
+    xx, Zx = expand_inputs(x, base.inducing_points.detach())
+    xx = xx.expand(*bs, *xx.shape[-2:])
+    Zx = Zx.expand(*bs, *Zx.shape[-2:])
+    Kzz, Kzx, Kxx, mX, mZ = joint_blocks(model, Zx, xx, M)
+    cmp_all = True
+    for mode in ("eval", "train"):
+        if tuple(res[mode][3].shape) != (Bm,):
+            ctx.fail(f"{key}/{mode}.kl-shape", f"{desc}: kl_divergence() has shape {list(res[mode][3].shape)}, one value per "
+                     f"model expected ({[Bm]})", dict(replay, observable=f"{mode}.kl-shape"))
+            cmp_all = False
+        if tuple(res[mode][0].shape) != (Bm, n, Tn):
+            ctx.fail(f"{key}/{mode}.mean-shape", f"{desc}: mean has shape {list(res[mode][0].shape)}, expected {[Bm, n, Tn]}",
+                     dict(replay, observable=f"{mode}.mean-shape"))
+            cmp_all = False
+    for b in range(Bm):
+        if replay_only is not None and list(replay_only) != [b]:
+            continue
+        mus, Cs, kls, kls_code, kap = [], [], [], [], 1.0
+        for q in range(Qn):
+            idx = (q, b) if ld == -2 else (b, q)
+            kzz, kzx, kxx = (fmat(bget(t, idx, 2)) for t in (Kzz, Kzx, Kxx))
+            kzz = sym_lower(kzz)
+            mx, mz = fcol(bget(mX, idx, 1)), fcol(bget(mZ, idx, 1))
+            kap = max(kap, kappa_of(kzz, eps_b))
+            m, S, R, hasS = exact_dist(drv, bdist, idx)
+            if whitened:
+                ex = exact_whitened(ctx, drv, desc, kzz, kzx, kxx, mx, eps_b, eps_b, m, S, hasS)
+            else:
+                ex = exact_unwhitened(ctx, drv, desc, kzz, kzx, kxx, mx, mz, eps_b, eps_b, m, S, R, hasS)
+                ec = unwhitened_prior_eps(base)
+                kls_code.append(kl_against(drv, kzz, ec, m, mz, S, hasS) if ec != eps_b else ex["kl"])
+            mus.append(ex["mean"])
+            Cs.append(ex["cov"])
+            kls.append(ex["kl"])
+        if kap > COND_MAX:
+            ctx.count("discarded_ill_conditioned")
+            continue
+        mats = " ".join(toks(mu) for mu in mus) + " " + " ".join(toks(Cv) for Cv in Cs)
+        if kind == "lmc":
+            A = fmat(vs.lmc_coefficients.detach()[:, b, :] if ld == -2 else vs.lmc_coefficients.detach()[b])
+            eps_l = F(vs.jitter_val)
+            fmean, fcov = drv.ask(f"L {Qn} {n} {Tn} {C.rat_str(eps_l)} {toks(A)} {mats}")
+            imean, icov = drv.ask(f"LI {Qn} {n} {Tn} {C.rat_str(eps_l)} {toks(A)} {' '.join(map(str, tau))} {mats}")
+        else:
+            fmean, fcov = drv.ask(f"IN {Tn} {n} {mats}")
+            imean, icov = drv.ask(f"LI {Tn} {n} {Tn} 0 {toks(eye(Tn))} {' '.join(map(str, tau))} {mats}")
+        klx = sum(kls)
+        cmp_ = Cmp(ctx, key, desc + f" model={b}", dict(replay, idx=[b]), kap, M + n * Tn)
+        for mode in ("eval", "train"):
+            mean, cov, var, kl, mi, ci = res[mode]
+            if not cmp_all:
+                break
+            full = whitened or mode == "eval"     # training-mode covariance of the unwhitened base: variances only
+            cmp_.mat(f"{mode}.mean", mean[b].tolist(), fmean)
+            if full:
+                cmp_.mat(f"{mode}.covariance", cov[b].tolist(), fcov)
+                if mi is not None:
+                    cmp_.mat(f"{mode}.task_indices.mean", col(mi[b]), imean)
+                    cmp_.mat(f"{mode}.task_indices.covariance", ci[b].tolist(), icov)
+            else:
+                cmp_.mat(f"{mode}.variance", var[b].tolist(), [[fcov[i * Tn + t][i * Tn + t] for t in range(Tn)] for i in range(n)])
+            if whitened:
+                cmp_.scalar(f"{mode}.kl", float(kl[b]), klx)
+            else:
+                klc = sum(kls_code) if (mode == "eval" and kls_code and sum(kls_code) != klx) else None
+                report_kl(ctx, cmp_, f"{mode}.kl", float(kl[b]), klx, klc,
+                          f"UnwhitenedVariationalStrategy:base-of-{type(vs).__name__}/{mode}.kl[prior-jitter-mismatch]",
+                          f"{key}/UnwhitenedBase/{mode}.divergence-formula", desc + f" model={b}", dict(replay, idx=[b]))
+        cmp_.flush()
+        ctx.case(desc + f" model={b} seed={C.seed()}")
+        ctx.count(f"cases:{type(vs).__name__}[batched,latent_dim={ld}]")
+        _state["worst"] = max(_state.get("worst", 0.0), cmp_.worst)
+
+
 def extra_configs(ctx):
     rng = ctx.rng("extra-configs")
     q = ctx.quick
@@ -1228,6 +1366,18 @@ def extra_configs(ctx):
                                           "T": Qn if kind == "indep" else rng.randint(2, 3), "M": rng.randint(2, 4),
                                           "n": rng.randint(2, 3), "d": rng.choice([1, 2]),
                                           "z_batched": rng.random() < 0.6, "k_batched": rng.random() < 0.6}))
+    # multitask wrappers over a batch of models: latent/task dimension at -1 and -2, Q != B and Q == B
+    for kind in ("lmc", "indep"):
+        for ld in (-1, -2):
+            for (Qn, Bm) in ([(2, 3), (2, 2)] if q else [(2, 3), (3, 2), (2, 2), (3, 3)]):
+                for base in ("VariationalStrategy", "UnwhitenedVariationalStrategy"):
+                    if q and base.startswith("Unwh") and Qn != Bm:
+                        continue
+                    out.append(("multitask_batched", {
+                        "kind": kind, "latent_dim": ld, "Q": Qn, "B": Bm, "T": Qn if kind == "indep" else rng.randint(2, 3),
+                        "base": base, "dist": rng.choice(DISTS[:2] if q else DISTS), "M": rng.randint(2, 3),
+                        "n": rng.randint(2, 3), "d": rng.choice([1, 2]), "z_batched": rng.random() < 0.6,
+                        "k_batched": False}))
     return out
 
 
@@ -1317,4 +1467,4 @@ def replay(ctx, payload):
 
 
 RUNNERS = {"basic": run_basic, "ciq": run_ciq, "batch_decoupled": run_batch_decoupled, "orth": run_orth,
-           "grid": run_grid, "multitask": run_multitask}
+           "grid": run_grid, "multitask": run_multitask, "multitask_batched": run_multitask_batched}
